@@ -73,18 +73,14 @@ def ViewIs (c : Cat) (p sn : String) (is : List Inst) : Prop :=
 def Fresh (c : Cat) (p : String) (is : List Inst) : Prop :=
   ∀ i ∈ is, i.node.id ≠ "" → ∀ e ∈ c.nodes, e.peer = p → e.id = i.node.id → e.name = i.node.name
 
-/-- A (node, service id) of the snapshot is not held by an instance of another service of the peer. -/
-def NoTheft (c : Cat) (p sn : String) (is : List Inst) : Prop :=
-  ∀ s ∈ c.svcs, s.peer = p → ∀ i ∈ is, s.node = i.node.name → s.sid = i.svc.sid → s.name = sn
-
-
 instance (c : Cat) (p : String) (is : List Inst) : Decidable (Fresh c p is) := by unfold Fresh; infer_instance
-instance (c : Cat) (p sn : String) (is : List Inst) : Decidable (NoTheft c p sn is) := by unfold NoTheft; infer_instance
 
-/-- A stored node of the peer with the name of a received node has no UUID or the received one (otherwise
-    `ensureNoNodeWithSimilarNameTxn` may refuse the registration: "node name is reserved"). -/
+/-- A stored node of the peer with the name of a received node has no UUID, or the received one, or its serf check
+    is missing or critical (otherwise `ensureNoNodeWithSimilarNameTxn` refuses the registration: "node name is
+    reserved"). -/
 def NoClash (c : Cat) (p : String) (is : List Inst) : Prop :=
-  ∀ i ∈ is, i.node.id ≠ "" → ∀ e ∈ c.nodes, e.peer = p → e.name = i.node.name → e.id = "" ∨ e.id = i.node.id
+  ∀ i ∈ is, i.node.id ≠ "" → ∀ e ∈ c.nodes, e.peer = p → e.name = i.node.name →
+    e.id = "" ∨ e.id = i.node.id ∨ serfHealthy c p e.name = false
 
 /-- every stored instance of `(p, sn)` has its node row, so that `CheckServiceNodes` can be read -/
 def Readable (c : Cat) (p sn : String) : Prop :=
